@@ -62,6 +62,8 @@ Record state := mkS {
 
 Definition set_lru (s : state) (l : list key) : state :=
   mkS (primary s) (triggers s) (timeout s) l (limit s) (size s) (tcount s) (gen s) (err s).
+Definition set_gen (s : state) (g : N) : state :=
+  mkS (primary s) (triggers s) (timeout s) (lru s) (limit s) (size s) (tcount s) g (err s).
 Definition set_err (s : state) : state :=
   mkS (primary s) (triggers s) (timeout s) (lru s) (limit s) (size s) (tcount s) (gen s) true.
 
@@ -180,8 +182,9 @@ Definition check_limits (now : Z) (nem : list bool) (s : state) : state :=
      FNone             no std::bad_alloc, size <= size_limit()
      FDropBefore       bad_alloc while copying the value (first try block): nothing happens
      FDropAfterDelete  the test size > size_limit() fires after the old entry was deleted
-     FClear            bad_alloc inside the second try block: nl_clear() *)
-Inductive fault := FNone | FDropBefore | FDropAfterDelete | FClear.
+     FClear b          bad_alloc inside the second try block: nl_clear(); b tells whether it was thrown
+                       after the statement generation++ had been executed *)
+Inductive fault := FNone | FDropBefore | FDropAfterDelete | FClear (bumped : bool).
 
 Definition link_all (k : key) (ts : list key) (acc : list (key * list key) * N) : list (key * list key) * N :=
   fold_left (fun a t => (trig_link k t (fst a), N.succ (snd a))) ts acc.
@@ -189,6 +192,9 @@ Definition link_all (k : key) (ts : list key) (acc : list (key * list key) * N) 
 Definition store_trigs (k : key) (tin : list key) : list key :=
   let ts := dedup tin in
   if kmem k ts then ts else k :: ts.
+
+(* cont.generation = gen ? *gen : generation++ *)
+Definition bump (g : option N) (n : N) : N := match g with Some _ => n | None => N.succ n end.
 
 Definition store (now : Z) (k : key) (v : list N) (tin : list key) (d : Z) (g : option N)
                  (f : fault) (nem : list bool) (s : state) : state :=
@@ -198,7 +204,7 @@ Definition store (now : Z) (k : key) (v : list N) (tin : list key) (d : Z) (g : 
     let s1 := delete_node k s in                                  (* if(main!=primary.end()) delete_node(main) *)
     match f with
     | FDropAfterDelete => s1
-    | FClear => clear s1
+    | FClear b => if b then set_gen (clear s1) (bump g (gen s1)) else clear s1
     | _ =>
       let s2 := check_limits now nem s1 in
       let ts := store_trigs k tin in
@@ -206,7 +212,7 @@ Definition store (now : Z) (k : key) (v : list N) (tin : list key) (d : Z) (g : 
       let '(trs, tc) := link_all k ts (triggers s2, tcount s2) in
       mkS (primary s2 ++ [(k, c)]) trs (tinsert d k (timeout s2)) (k :: lru s2)
           (limit s2) (N.succ (size s2)) tc
-          (match g with Some _ => gen s2 | None => N.succ (gen s2) end) (err s2)
+          (bump g (gen s2)) (err s2)
     end
   end.
 
